@@ -94,6 +94,8 @@ func (u *fetchUnit) reset(pc int32, cleanPending bool) {
 	u.ctx.IncSequenceID()
 	u.Reset()
 	u.pc = pc
+	// The fetch unit may have reached the end of the program on the wrong path
+	u.complete = false
 	u.toCleanPending = cleanPending
 }
 
